@@ -43,7 +43,7 @@ def swarm(r, table, p_drop=0.25):
 
 def base_cfg(r, tier):
     cfg = {
-        "profile": r.choice(["ints", "ints", "strs", "mixed"]),
+        "profile": r.choice(["ints", "ints", "strs", "mixed"] + (["wide"] if tier == "thorough" else [])),
         "faults": False,
         "fault_rate": 0.0,
         "fault_kinds": [],
